@@ -39,6 +39,8 @@ def cases(tier):
     for ns, ne in sizes:
         for ign in (True, False):
             cs.append({'name': 'glue/start%d-end%d/%s' % (ns, ne, 'ignoreH' if ign else 'keepH'), 'ns': ns, 'ne': ne, 'ign': ign})
+    for ns, ne in ((2, 3), (3, 2), (3, 3)):
+        cs.append({'name': 'realign/start%d-end%d' % (ns, ne), 'ns': ns, 'ne': ne})
     for kind in ('translation', 'rotation'):
         cs.append({'name': 'step/%s' % kind, 'move': kind, 'n': 3 if tier == 'quick' else 4})
     return cs
@@ -290,7 +292,93 @@ def _step(case):
     return {'records': records, 'paths': st['paths'], 'queries': st['queries'], 'solver_s': st['solver_s'], 'samples': samples, 'nontrivial': nontrivial}
 
 
+def _realign(case):
+    """history: align, assign another conformation of the same species to start and to end, align again - the second
+    optimisation must be set up from the new conformations only (no table or coordinates kept from the first one)"""
+    from symx.core import explore, SymReal, expr, Ctx
+    from symx import npx
+    from symx.mol import make_molecule
+    npx.install()
+    import gaddlemaps._alignment as al
+    cap = 60000
+    ns, ne = case['ns'], case['ne']
+    records, samples, nontrivial = [], [], []
+    st = {'paths': 0, 'queries': 0, 'solver_s': 0.0}
+    calls = []
+
+    def recorder(mol1_positions, mol2_positions, mol2_com, sigma_scale, n_steps, restriction, mol2_bonds_info, displacement_module, sim_type):
+        Z = np.array([[SymReal(Ctx.cur.freshvar('Z')) for _ in range(3)] for _ in range(len(mol2_positions))], dtype=object)
+        calls.append(dict(mol1=mol1_positions, mol2=mol2_positions, com=mol2_com, bonds=mol2_bonds_info, width=displacement_module, Z=Z))
+        return Z
+    al.minimize_molecules = recorder
+    V = {nm: [[z3.Real('%s%d_%d' % (nm, i, k)) for k in range(3)] for i in range(n)] for nm, n in (('s', ns), ('e', ne), ('t', ns), ('f', ne))}
+    inputs = {'%s%d_%d' % (nm, i, k): V[nm][i][k] for nm in V for i in range(len(V[nm])) for k in range(3)}
+    Ctx.default_sample_inputs = inputs
+    start_larger = ns >= ne
+
+    def run(ctx):
+        del calls[:]
+        for nm in V:
+            rows = V[nm]
+            for i in range(len(rows)):
+                for j in range(i):
+                    ctx.assume(z3.Or(*[rows[i][k] != rows[j][k] for k in range(3)]))
+        mk = lambda name, rows, prefix: make_molecule(name, [('%s%d' % (prefix, a), name[:3], 1) for a in range(len(rows))],
+                                                      [(a, a + 1) for a in range(len(rows) - 1)], [[SymReal(v) for v in row] for row in rows])
+        ali = al.Alignment(mk('STA', V['s'], 'C'), mk('END', V['e'], 'N'))
+        ali.align_molecules(deformation_types=(0, 1, 2))
+        ali.start = mk('STA', V['t'], 'C')
+        ali.end = mk('END', V['f'], 'N')
+        ali.align_molecules(deformation_types=(0, 1, 2))
+        return ali, list(calls)
+    for ctx, res, exc in explore(run, max_paths=600):
+        st['paths'] += 1
+        if res is None:
+            r, secs, m = ctx.reachable(cap)
+            records.append({'name': 'path%d aborted (%r): infeasible under the preconditions' % (st['paths'], exc), 'status': 'unsat' if r == 'unsat' else ('unknown' if r == 'unknown' else 'sat'), 'secs': secs,
+                            'witness': None if r != 'sat' else {'kind': 'realign', 'ns': ns, 'ne': ne, 'what': 'abort'}})
+            continue
+        ali, cl = res
+        nontrivial.append('path%d' % st['paths'])
+        if len(cl) != 2:
+            records.append({'name': 'path%d: optimiser called once per alignment (%d calls)' % (st['paths'], len(cl)), 'status': 'sat', 'secs': 0,
+                            'witness': {'kind': 'realign', 'ns': ns, 'ne': ne, 'what': 'calls'}})
+            continue
+        c = cl[1]
+        shift = [sum(V['f'][i][k] for i in range(ne)) / ne - sum(V['t'][i][k] for i in range(ns)) / ns for k in range(3)]
+        moved = [[V['t'][i][k] + shift[k] for k in range(3)] for i in range(ns)]
+        newend = [[V['f'][i][k] for k in range(3)] for i in range(ne)]
+        fixed_rows, mobile_rows = (moved, newend) if start_larger else (newend, moved)
+        T = lambda rows: [[expr(x) for x in row] for row in rows]
+        m1, m2 = T(c['mol1']), T(c['mol2'])
+        obligations = [('second alignment starts from the newly assigned mobile conformation', z3.And(*[m2[i][k] == mobile_rows[i][k] for i in range(len(mobile_rows)) for k in range(3)])),
+                       ('second alignment sees the newly assigned fixed conformation', z3.And(*[m1[i][k] == fixed_rows[i][k] for i in range(len(fixed_rows)) for k in range(3)]))]
+        cl_b = []
+        for i, lst in c['bonds'].items():
+            for j, d in lst:
+                cl_b.append(z3.And(expr(d) >= 0, expr(d) * expr(d) == sum((mobile_rows[i][k] - mobile_rows[j][k]) ** 2 for k in range(3))))
+        obligations.append(('bond table of the second alignment = bonded distances of the newly assigned conformation', z3.And(*cl_b)))
+        nf = len(fixed_rows)
+        blen2 = [sum((fixed_rows[i][k] - fixed_rows[i + 1][k]) ** 2 for k in range(3)) for i in range(nf - 1)]
+        w = expr(c['width'])
+        obligations.append(('translation width of the second alignment = 2 * shortest bond of the new fixed conformation',
+                            z3.And(w >= 0, z3.Or(*[w * w == 4 * b for b in blen2]), *[w * w <= 4 * b for b in blen2])))
+        for nm_, claim in obligations:
+            r, secs, mo = ctx.prove(claim, cap)
+            rec = {'name': 'path%d: %s' % (st['paths'], nm_), 'status': r, 'secs': secs}
+            if r == 'sat':
+                rec['witness'] = {'kind': 'realign', 'ns': ns, 'ne': ne, 'what': nm_}
+            records.append(rec)
+        if len(samples) < 2:
+            samples.append({'history': 'align, start := other conformation, end := other conformation, align', 'sizes': [ns, ne]})
+        st['queries'] += ctx.queries; st['solver_s'] += ctx.solver_time
+    records.append({'name': 'reachability-twin', 'status': 'twin', 'secs': 0})
+    return {'records': records, 'paths': st['paths'], 'queries': st['queries'], 'solver_s': st['solver_s'], 'samples': samples, 'nontrivial': nontrivial}
+
+
 def run_case(case):
+    if case['name'].startswith('realign'):
+        return _realign(case)
     return _glue(case) if case['name'].startswith('glue') else _step(case)
 
 
@@ -321,6 +409,42 @@ def replay(w):
         D = lambda A: np.array([[np.linalg.norm(A[i] - A[j]) for j in range(len(A))] for i in range(len(A))])
         bad = len(seen) < 2 or np.abs(D(seen[1]) - D(seen[0])).max() > 1e-9
         return {'reproduced': bool(bad), 'what': 'Monte-Carlo %s proposal changes interatomic distances' % w['move'], 'detail': {}}
+    if w['kind'] == 'realign':
+        ns, ne = w['ns'], w['ne']
+        rs = np.random.RandomState(13)
+        mk = lambda name, n, prefix, scale: make_molecule(name, [('%s%d' % (prefix, a), name[:3], 1) for a in range(n)], [(a, a + 1) for a in range(n - 1)],
+                                                          rs.uniform(-2, 2, (n, 3)) * scale)
+        calls = []
+
+        def recorder(m1, m2, com, sigma, n_steps, restr, bonds, width, sim):
+            calls.append(dict(mol1=np.array(m1, dtype=float), mol2=np.array(m2, dtype=float), bonds=bonds, width=width))
+            return np.array(m2, dtype=float) + 0.05
+        saved = al.minimize_molecules
+        al.minimize_molecules = recorder
+        bad = []
+        try:
+            ali = al.Alignment(mk('STA', ns, 'C', 1.0), mk('END', ne, 'N', 1.0))
+            ali.align_molecules(deformation_types=(0, 1, 2))
+            s2, e2 = mk('STA', ns, 'C', 2.5), mk('END', ne, 'N', 0.4)
+            ali.start = s2; ali.end = e2
+            ali.align_molecules(deformation_types=(0, 1, 2))
+        finally:
+            al.minimize_molecules = saved
+        if len(calls) != 2:
+            bad.append('%d optimiser calls' % len(calls))
+        else:
+            c = calls[1]
+            S2 = s2.atoms_positions + (e2.atoms_positions.mean(axis=0) - s2.atoms_positions.mean(axis=0))
+            fixed, mobile = (S2, e2.atoms_positions) if ns >= ne else (e2.atoms_positions, S2)
+            if np.abs(c['mol2'] - mobile).max() > 1e-9 or np.abs(c['mol1'] - fixed).max() > 1e-9:
+                bad.append('second alignment not set up from the newly assigned conformations')
+            for i, lst in c['bonds'].items():
+                for j, d in lst:
+                    if abs(d - np.linalg.norm(mobile[i] - mobile[j])) > 1e-9:
+                        bad.append('bond table of the second alignment holds lengths of the first conformation')
+            if abs(c['width'] - 2 * min(np.linalg.norm(fixed[i] - fixed[i + 1]) for i in range(len(fixed) - 1))) > 1e-9:
+                bad.append('translation width of the second alignment not taken from the new fixed conformation')
+        return {'reproduced': bool(bad), 'what': 'align, re-assign start/end, align again: ' + '; '.join(sorted(set(bad))), 'detail': {}}
     ns, ne, mask, R, D, ign = w['ns'], w['ne'], w['mask'], w['R'], w['D'], w['ign']
     v = {k: fval(x) for k, x in (w.get('inputs') or {}).items()}
     rs = np.random.RandomState(11)
